@@ -2921,7 +2921,7 @@ TARGETS = (
        ["new", "try_seconds", "try_weeks", "try_days", "try_hours", "try_minutes", "try_milliseconds", "microseconds",
         "nanoseconds", "num_seconds", "subsec_nanos", "num_minutes", "num_hours", "num_days", "num_weeks",
         "subsec_millis", "subsec_micros", "num_milliseconds", "num_microseconds", "num_nanoseconds", "checked_add",
-        "checked_sub", "checked_mul", "checked_div", "neg", "abs", "is_zero", "seconds", "days", "weeks"]]
+        "checked_sub", "checked_mul", "checked_div", "neg", "abs", "is_zero"]]
     + [("src/weekday.rs", "Weekday", f) for f in
        ["succ", "pred", "days_since", "num_days_from_monday", "number_from_monday", "num_days_from_sunday",
         "number_from_sunday"]]
